@@ -393,6 +393,15 @@ impl Check for C15 {
             Muts::Enumerate { seed } => enumerate(base, &bounds, *seed, quick),
             Muts::List(v) => (v.clone(), false),
         };
+        // CRAM files whose every decode costs 0.1 s and more (bzip2 / lzma / fqzcomp block codecs: the
+        // fqzcomp decoder builds 65 536 models per block) get every 16th mutation of the enumeration: a
+        // single such case otherwise runs for hours. Decided from the plan, never from a clock.
+        let slow_cram = matches!(&made.model, kinds::Model::Cram { opts, .. } if matches!(opts.encoder, 3 | 4 | 9));
+        let all = all && !slow_cram;
+        if slow_cram && matches!(p.muts, Muts::Enumerate { .. }) {
+            muts = muts.into_iter().step_by(16).collect();
+            ctx.stats.probe("slow_cram_case_thinned", 1);
+        }
         // CRAM: every block's compression-method byte set to every method, so that block payloads
         // (arbitrary bytes from the codec's point of view) are fed to each codec decoder:
         // raw, gzip, bzip2, lzma, rANS 4x8, rANS Nx16, arithmetic coder, fqzcomp, name tokenizer
